@@ -155,6 +155,12 @@ def run_cycle(ctx, profiles, n_quick, n_thorough, oracle=None, nontrivial_rule=N
         if cid not in i2 or cid not in m2:
             return False
         r2 = ce.compare_case(i2[cid], m2[cid])
+        if r2["level"] == "spec" and cid.startswith(("mixed-panic", "s-mixed-panic")):
+            # the evalo column is only meaningful for this directed family while every cycle goes
+            # through a function without recovery: a shrunk candidate that merely turned the
+            # program into a recovering cycle (too-many-iterations vs "cycle") is not a witness
+            if not (str(r2.get("impl", "")).startswith("ret") and str(r2.get("model", "")).startswith("ret")):
+                return False
         return r2["level"] == "spec" and ce.known_class(text, i2[cid], m2[cid], r2) is None
 
     def report_case(c, r, kind, no_input=False):
